@@ -78,7 +78,7 @@ class ScriptedSweeper(generic_implicit):
             if flag:
                 cur.forced[key] = flag
         sticky_done = any(v == 'done' for k, v in cur.forced.items() if k[0] == cur.block and k[1] == S.status.slot)
-        if cfg.get('conv_mode', 'choose') == 'never':
+        if cfg.get('conv_mode', 'choose') == 'never' or L.params.restol < 0:
             conv = False
         elif flag != 'continue' and (S.status.iter >= S.params.maxiter or sticky_done):
             # the answer cannot be read: the budget test / forced stop alone decides (a changed test shows in niter)
@@ -135,11 +135,16 @@ def _mk(name):
                 'riar': step.status.get('restarts_in_a_row'),
                 'dt_new': L0.status.dt_new,
                 'err': L0.status.get('error_embedded_estimate'),
+                'est': cur.est.get((cur.block, step.status.slot)),
+                'rreq': cur.restart_req.get((cur.block, step.status.slot)),
+                'time': L0.time,
                 'block': cur.block,
                 'first': step.status.first,
                 'last': step.status.last,
                 'residual': L0.status.residual,
                 'work': {k: v.niter for k, v in L0.prob.work_counters.items()},
+                'n_eval': getattr(L0.prob, 'n_eval', None),
+                'n_solve': getattr(L0.prob, 'n_solve', None),
             }
         cur.log.append((name, step.status.slot, level_number, step.status.iter, L.time, extra))
 
@@ -324,7 +329,7 @@ def resolve(name):
 
 def build(cfg):
     L = cfg['L']
-    nodes = NODES_BY_LEVEL[L]
+    nodes = cfg.get('nodes') or NODES_BY_LEVEL[L]
     level_params = {'restol': RESTOL, 'dt': cfg['dt']}
     if L > 1:
         level_params['nsweeps'] = [cfg['nsweeps']] * (L - 1) + [1]
@@ -333,7 +338,7 @@ def build(cfg):
     sweeper_params = {'quad_type': 'RADAU-RIGHT', 'num_nodes': nodes if L > 1 else nodes[0], 'QI': 'LU'}
     problem_params = {'lambdas': np.array([-1.0 + 0.5j, -0.3]), 'u0': 1.0}
     description = {
-        'problem_class': testequation0d,
+        'problem_class': CountingProblem,
         'problem_params': problem_params,
         'sweeper_class': ScriptedSweeper,
         'sweeper_params': sweeper_params,
@@ -345,6 +350,18 @@ def build(cfg):
         description['space_transfer_class'] = IdentityTransfer
     if cfg.get('forced'):
         description['convergence_controllers'][ScriptedFlags] = {}
+    if cfg.get('adaptive') is not None or cfg.get('restart_script'):
+        import vf.env.adaptive  # noqa: F401  (registers the scripted controllers)
+    if cfg.get('adaptive') is not None:
+        level_params['restol'] = -1.0
+        description['convergence_controllers'][resolve('ScriptedAdaptivity')] = {'e_tol': 1.0, **cfg['adaptive']}
+    if cfg.get('restarting') is not None:
+        from pySDC.implementations.convergence_controller_classes.basic_restarting import BasicRestartingNonMPI
+
+        description['convergence_controllers'][BasicRestartingNonMPI] = dict(cfg['restarting'])
+    if cfg.get('restart_script'):
+        level_params['restol'] = -1.0
+        description['convergence_controllers'][resolve('ScriptedRestart')] = {}
     for cc, pars in cfg.get('cc', []):
         description['convergence_controllers'][resolve(cc)] = dict(pars)
     controller_params = {
@@ -444,6 +461,23 @@ def split_attempts(log):
     return attempts
 
 
+class CountingProblem(testequation0d):
+    """testequation0d that counts its own eval_f / solve_system calls (ground truth for the work statistics)."""
+
+    def __init__(self, *args, **kwargs):
+        super().__init__(*args, **kwargs)
+        self.n_eval = 0
+        self.n_solve = 0
+
+    def eval_f(self, u, t):
+        self.n_eval += 1
+        return super().eval_f(u, t)
+
+    def solve_system(self, rhs, factor, u0, t):
+        self.n_solve += 1
+        return super().solve_system(rhs, factor, u0, t)
+
+
 class BlockRun:
     """Picklable harness: one execution of the real controller under the scripted environment."""
 
@@ -478,8 +512,11 @@ class BlockRun:
             cur.v('non_termination', msg=str(e))
             outcome = ('horizon',)
         except (CommunicationError, ControllerError, UnlockError) as e:
-            cur.v('protocol_exception', exc=type(e).__name__, msg=str(e)[:200])
-            outcome = ('exc', type(e).__name__)
+            if cfg.get('nothing_to_do_ok') and isinstance(e, ControllerError) and 'Nothing to do' in str(e):
+                outcome = ('nothing_to_do',)
+            else:
+                cur.v('protocol_exception', exc=type(e).__name__, msg=str(e)[:200])
+                outcome = ('exc', type(e).__name__)
         except ConvergenceError as e:
             outcome = ('convergence_error',)
             cur.convergence_error = str(e)
@@ -497,7 +534,17 @@ class BlockRun:
             if 'model' in checks:
                 self.check_model(cur, attempts)
         for fn in cfg.get('post_checks', ()):
-            fn(cur)
+            mod, _, name = fn.partition(':')
+            import importlib
+
+            getattr(importlib.import_module(mod), name)(cur)
+        if cfg.get('debug'):
+            print('\n'.join(describe(cur)))
+            if cfg.get('debug_types') and stats is not None:
+                for k in sorted(stats.keys(), key=lambda k: (str(k.type), k.time, k.num_restarts)):
+                    if k.type in cfg['debug_types']:
+                        v = stats[k]
+                        print('   stat', k.type, 't=%r' % k.time, 'proc', k.process, 'iter', k.iter, 'nr', k.num_restarts, 'val', v if not hasattr(v, 'tobytes') else '<arr>')
         niters = tuple((a['block'], a['slot'], a.get('iter_at_post')) for a in attempts)
         return Outcome(cur.viol, cur.states, (outcome, niters), extra=cur.extra if hasattr(cur, 'extra') else None)
 
@@ -562,3 +609,15 @@ class BlockRun:
             rec = sorted((a['time'], a.get('iter_at_post')) for a in attempts)
             if [(t, v) for t, v in nit] != rec:
                 cur.v('niter_stats', stats=nit, recorder=rec)
+
+
+def describe(cur):
+    """Human-readable history of an execution (debugging / replay output)."""
+    lines = []
+    for a in cur.attempts:
+        p = a.get('post') or {}
+        lines.append(
+            f"b{a['block']} s{a['slot']} t={a['time']!r} dt={a['pre']['dt']!r} riar={a['pre']['riar']} "
+            f"restart={p.get('restart')} est={p.get('est')} dt_new={p.get('dt_new')} niter={a.get('iter_at_post')}"
+        )
+    return lines
